@@ -214,6 +214,8 @@ class SymExec:
             return {'held': '0'}
         if t[0] == 'ptr':
             return None
+        if t[0] == 'opaque':
+            return None        # a member of a type outside the extractor's reach (third-party solver object): never read by extracted code, else its use fails
         raise ExtractError('emit_smt: no default value for type %r' % (t,))
 
     def arbitrary_value(self, t, prefix):
